@@ -205,18 +205,20 @@ ReadAll ==
      /\ IF n = 0 THEN refs' = st.refs /\ UNCHANGED <<rootvars, hvars, held>>
         ELSE /\ AddRoot(n, TRUE, data) /\ refs' = [st.refs EXCEPT ![nh + 1] = 1]
 
-\* BufferSlice(s).MaterializeToBuffer(pool)
-Materialize(s, pooled) ==
+\* BufferSlice(s).MaterializeToBuffer(pool).  same = the call returned s[1] itself (after Ref)
+MaterializeG(s, pooled, same) ==
   /\ \A i \in 1..Len(s) : Live(s[i])
-  /\ IF Len(s) = 1
-       THEN /\ held' = [held EXCEPT ![s[1]] = @ + 1]
+  /\ IF same
+       THEN /\ Len(s) >= 1
+            /\ held' = [held EXCEPT ![s[1]] = @ + 1]
             /\ refs' = IF Pooled(s[1]) THEN [refs EXCEPT ![s[1]] = @ + 1] ELSE refs
             /\ UNCHANGED <<rootvars, hvars>>
        ELSE IF SumLen(s) = 0 THEN AddEmpty /\ UNCHANGED <<rootvars, refs>>
        ELSE /\ (SumLen(s) > Thr => pooled)
             /\ AddRoot(SumLen(s), pooled, Norm(CatContent(s)))
             /\ refs' = [refs EXCEPT ![nh + 1] = IF pooled THEN 1 ELSE 0]
-         /\ UNCHANGED <<rput, rd>>
+  /\ UNCHANGED <<rput, rd>>
+Materialize(s, pooled) == MaterializeG(s, pooled, Len(s) = 1)
 
 \* ---- Level A: the property
 RECURSIVE SumHeld(_)
